@@ -340,6 +340,10 @@ func (c09) Generate(r *core.Rng, run int, tier string) *core.History {
 		if strings.HasPrefix(tpl, "bs9 = ") || strings.HasPrefix(tpl, "ba9 = ") {
 			n = int64(core.Pick(r, []int{2, 9, 12, 15, 16, 40, 100})) // a LARGE operand repeated a small number of times
 		}
+		if strings.Contains(tpl, `len(join(["ab"] * `) {
+			// operands for which the elements and the separator are each small and only their product is large
+			n = int64(core.Pick(r, []int{1000, 20000, 70000, 100000, 400000, 2000000}))
+		}
 		if strings.Contains(tpl, "m[i]") {
 			n = int64(core.Pick(r, []int{10, 1000, 200000}))
 		}
